@@ -97,8 +97,9 @@ let dump (fuel : nat) (before : (spath, spath) fsys) ((fs, db) : sstate) : ostri
           Printf.sprintf "\"index\":\"done\",\"notfound\":%s,\"outline\":%s,\"indexed\":%s" nf ol fl
       | OutOfFuel -> "\"index\":\"out-of-fuel\""
       | Panic e -> "\"index\":\"panic:" ^ panic_name e ^ "\"" in
-  Printf.sprintf "{\"outcome\":\"done\",\"ids\":%s,\"fc\":%s,\"rim\":%s,\"reads\":%s,\"root\":%s,\"files\":%s,\"links\":%s,%s}"
-    ids_j fc_j rim_j reads_j root_j files_j links_j index_j
+  let digest_j = jlist (List.map (fun x -> string_of_int (int_of_n x)) (digest fuel (fs, db))) in
+  Printf.sprintf "{\"outcome\":\"done\",\"ids\":%s,\"fc\":%s,\"rim\":%s,\"reads\":%s,\"root\":%s,\"files\":%s,\"links\":%s,\"digest\":%s,%s}"
+    ids_j fc_j rim_j reads_j root_j files_j links_j digest_j index_j
 
 let run_case (line : ostring) : ostring =
   let ws = List.filter (fun s -> s <> "") (String.split_on_char ' ' line) in
